@@ -649,14 +649,19 @@ func checkC06(P *Program, r *Result, tier string) {
 		r.add("COUNT", shortName(enc), "call", "the count starts at the bytes already emitted (protocol id + transform count)", P.pos(enc.Pos()), int64(nb) == start, fmt.Sprintf("%d single-byte writes, initial count %d", nb, start))
 	}
 	// ---- writeKVInfo: PAD, COUNT, SECTIONS ----
-	fw := run.A.fa(wkv)
-	wout := wkv.Params[3]
+	// the header-info writer may be cut into functions that thread the running size: (size, …, writer) → (size, error)
+	cluster := sizeThreadingCluster(wkv)
+	origWkv := wkv
 	var padCall *ssa.Call
-	for _, c := range invokesOn(wkv, wout) {
-		if c.Common().Method.Name() == "Malloc" {
-			padCall = c
+	for _, f := range cluster {
+		for _, c := range invokesOn(f, f.Params[len(f.Params)-1]) {
+			if c.Common().Method.Name() == "Malloc" {
+				padCall = c
+				wkv = f // the PAD rules speak about the function that pads
+			}
 		}
 	}
+	fw := run.A.fa(wkv)
 	if r.require("writeKVInfo: out.Malloc(padding)", padCall != nil) {
 		padV := padCall.Common().Args[0]
 		// the size variable the padding is computed from: the unique non-constant leaf
@@ -733,9 +738,13 @@ func checkC06(P *Program, r *Result, tier string) {
 		}
 		r.add("COUNT", shortName(wkv), "return", "returned size = size before padding + padding", P.pos(wkv.Pos()), padCounted, "")
 	}
-	countRule(P, r, run, wkv)
+	wkv = origWkv
+	for _, f := range cluster {
+		r.Funcs[shortName(f)] = true
+		countRule(P, r, run, f, cluster)
+	}
 	sectionsRule(P, r, wkv)
-	numHeadersRule(P, r, wkv)
+	numHeadersRule(P, r, cluster)
 	// decode side
 	decode, dscope := ttDecodeScope(P, r)
 	if decode != nil {
@@ -798,7 +807,7 @@ func isSuccessReturn(fa *FA, ret *ssa.Return) bool {
 
 // countRule: on every success path, the size variable of writeKVInfo grows by
 // exactly the bytes emitted on that path.
-func countRule(P *Program, r *Result, run *e1Run, fn *ssa.Function) {
+func countRule(P *Program, r *Result, run *e1Run, fn *ssa.Function, cluster []*ssa.Function) {
 	fa := run.A.fa(fn)
 	// bytes emitted by a call (nil if it emits nothing)
 	emitted := func(c *ssa.Call) *Lin {
@@ -826,6 +835,14 @@ func countRule(P *Program, r *Result, run *e1Run, fn *ssa.Function) {
 				return fa.expand(v)
 			}
 		}
+		// a size-threading part of the writer (itself checked by this rule): it emits what it adds to the size
+		for _, h := range cluster {
+			if h == cal && h != fn {
+				if v := resultValue(c, 0); v != nil {
+					return fa.expand(v).sub(fa.expand(com.Args[0]))
+				}
+			}
+		}
 		// a repository helper that only reports an error: the constant number of bytes all its success paths emit
 		if k, ok := constEmission(cal, 0); ok && k > 0 {
 			return linConst(k)
@@ -842,13 +859,27 @@ func countRule(P *Program, r *Result, run *e1Run, fn *ssa.Function) {
 		}
 	}
 	if succRet == nil {
+		// the function ends by handing on the (size, error) of its last part: that part's success is its own
+		for _, ret := range returnsOf(fn) {
+			if ex, ok := ret.Results[len(ret.Results)-1].(*ssa.Extract); ok {
+				if c, ok := ex.Tuple.(*ssa.Call); ok && c.Block() == ret.Block() {
+					for _, h := range cluster {
+						if c.Common().StaticCallee() == h && h != fn {
+							succRet = ret
+						}
+					}
+				}
+			}
+		}
+	}
+	if succRet == nil {
 		r.add("COUNT", shortName(fn), "paths", "success return found", P.pos(fn.Pos()), false, "")
 		return
 	}
 	isErrBlock := func(b *ssa.BasicBlock) bool {
 		// a block that only leads to error returns
 		if ret, ok := b.Instrs[len(b.Instrs)-1].(*ssa.Return); ok {
-			return !isSuccessReturn(fa, ret)
+			return ret != succRet && !isSuccessReturn(fa, ret)
 		}
 		return false
 	}
@@ -1369,119 +1400,121 @@ func isSectionReader(f *ssa.Function) bool {
 // numHeadersRule: the pair count written in front of a key/value section equals
 // the number of pairs the following loop emits: len(map), minus one exactly
 // when the one key the loop leaves out is present in the map.
-func numHeadersRule(P *Program, r *Result, wkv *ssa.Function) {
+func numHeadersRule(P *Program, r *Result, cluster []*ssa.Function) {
 	n := 0
-	for _, b := range wkv.Blocks {
-		for _, in := range b.Instrs {
-			rg, ok := in.(*ssa.Range)
-			if !ok {
-				continue
-			}
-			if _, isMap := rg.X.Type().Underlying().(*types.Map); !isMap {
-				continue
-			}
-			n++
-			// the count: last 16-bit write that dominates the loop
-			var cntCall *ssa.Call
-			var cntVal ssa.Value
-			for _, c := range callsIn(wkv) {
-				cc, isCall := c.(*ssa.Call)
-				if !isCall || !instrDominates(cc, rg) {
+	for _, wkv := range cluster {
+		for _, b := range wkv.Blocks {
+			for _, in := range b.Instrs {
+				rg, ok := in.(*ssa.Range)
+				if !ok {
 					continue
 				}
-				if v := uint16Written(cc, 0); v != nil {
-					if cntCall == nil || instrDominates(cntCall, cc) {
-						cntCall, cntVal = cc, v
-					}
+				if _, isMap := rg.X.Type().Underlying().(*types.Map); !isMap {
+					continue
 				}
-			}
-			if cntCall == nil {
-				r.add("NUM-HEADERS", shortName(wkv), "loop", "a pair count is written before the pairs", P.pos(instrPos(rg)), false, "no 16-bit count write dominates the loop")
-				continue
-			}
-			// keys the loop leaves out: `if key == K { continue }`
-			var skipped []string
-			var next *ssa.Next
-			for _, ref := range *rg.Referrers() {
-				if nx, ok := ref.(*ssa.Next); ok {
-					next = nx
-				}
-			}
-			if next != nil {
-				for _, ref := range *next.Referrers() {
-					ex, ok := ref.(*ssa.Extract)
-					if !ok || ex.Index != 1 || ex.Referrers() == nil {
+				n++
+				// the count: last 16-bit write that dominates the loop
+				var cntCall *ssa.Call
+				var cntVal ssa.Value
+				for _, c := range callsIn(wkv) {
+					cc, isCall := c.(*ssa.Call)
+					if !isCall || !instrDominates(cc, rg) {
 						continue
 					}
-					for _, r2 := range *ex.Referrers() {
-						if bo, ok := r2.(*ssa.BinOp); ok && bo.Op == token.EQL {
-							if k, ok := bo.Y.(*ssa.Const); ok && k.Value != nil && k.Value.Kind() == constant.String {
-								skipped = append(skipped, constant.StringVal(k.Value))
+					if v := uint16Written(cc, 0); v != nil {
+						if cntCall == nil || instrDominates(cntCall, cc) {
+							cntCall, cntVal = cc, v
+						}
+					}
+				}
+				if cntCall == nil {
+					r.add("NUM-HEADERS", shortName(wkv), "loop", "a pair count is written before the pairs", P.pos(instrPos(rg)), false, "no 16-bit count write dominates the loop")
+					continue
+				}
+				// keys the loop leaves out: `if key == K { continue }`
+				var skipped []string
+				var next *ssa.Next
+				for _, ref := range *rg.Referrers() {
+					if nx, ok := ref.(*ssa.Next); ok {
+						next = nx
+					}
+				}
+				if next != nil {
+					for _, ref := range *next.Referrers() {
+						ex, ok := ref.(*ssa.Extract)
+						if !ok || ex.Index != 1 || ex.Referrers() == nil {
+							continue
+						}
+						for _, r2 := range *ex.Referrers() {
+							if bo, ok := r2.(*ssa.BinOp); ok && bo.Op == token.EQL {
+								if k, ok := bo.Y.(*ssa.Const); ok && k.Value != nil && k.Value.Kind() == constant.String {
+									skipped = append(skipped, constant.StringVal(k.Value))
+								}
 							}
 						}
 					}
 				}
-			}
-			isLenOf := func(v ssa.Value) bool {
-				l := builtinCall(stripConv(v), "len")
-				return l != nil && l.Common().Args[0] == rg.X
-			}
-			cnt := stripConv(cntVal)
-			ok2, detail := false, ""
-			switch {
-			case len(skipped) == 0:
-				ok2 = isLenOf(cnt)
-				if !ok2 {
-					detail = "the count is not len(map) although every pair is written"
+				isLenOf := func(v ssa.Value) bool {
+					l := builtinCall(stripConv(v), "len")
+					return l != nil && l.Common().Args[0] == rg.X
 				}
-			case len(skipped) == 1:
-				// cnt = φ(len(m) − 1 on the path where K is present, len(m) otherwise)
-				detail = "the count is not len(map) reduced by one exactly when the left-out key is present"
-				if ph, isPhi := cnt.(*ssa.Phi); isPhi && len(ph.Edges) == 2 {
-					okMinus, okPlain := false, false
-					for i, e := range ph.Edges {
-						pred := ph.Block().Preds[i]
-						present, absent := false, false
-						conds := blockConds(pred, nil, 0)
-						if iff, isIf := pred.Instrs[len(pred.Instrs)-1].(*ssa.If); isIf && pred.Succs[0] != pred.Succs[1] {
-							conds = append(conds, condImplies(iff.Cond, pred.Succs[0] == ph.Block(), 0)...)
+				cnt := stripConv(cntVal)
+				ok2, detail := false, ""
+				switch {
+				case len(skipped) == 0:
+					ok2 = isLenOf(cnt)
+					if !ok2 {
+						detail = "the count is not len(map) although every pair is written"
+					}
+				case len(skipped) == 1:
+					// cnt = φ(len(m) − 1 on the path where K is present, len(m) otherwise)
+					detail = "the count is not len(map) reduced by one exactly when the left-out key is present"
+					if ph, isPhi := cnt.(*ssa.Phi); isPhi && len(ph.Edges) == 2 {
+						okMinus, okPlain := false, false
+						for i, e := range ph.Edges {
+							pred := ph.Block().Preds[i]
+							present, absent := false, false
+							conds := blockConds(pred, nil, 0)
+							if iff, isIf := pred.Instrs[len(pred.Instrs)-1].(*ssa.If); isIf && pred.Succs[0] != pred.Succs[1] {
+								conds = append(conds, condImplies(iff.Cond, pred.Succs[0] == ph.Block(), 0)...)
+							}
+							for _, dc := range conds {
+								ex, isEx := dc.Cond.(*ssa.Extract)
+								if !isEx || ex.Index != 1 {
+									continue
+								}
+								lk, isLk := ex.Tuple.(*ssa.Lookup)
+								if !isLk || !lk.CommaOk || lk.X != rg.X {
+									continue
+								}
+								if k, isC := lk.Index.(*ssa.Const); !isC || k.Value == nil || k.Value.Kind() != constant.String || constant.StringVal(k.Value) != skipped[0] {
+									continue
+								}
+								if dc.Truth {
+									present = true
+								} else {
+									absent = true
+								}
+							}
+							if bo, isBo := e.(*ssa.BinOp); isBo && present {
+								k, isC := constInt(bo.Y)
+								if (bo.Op == token.SUB && isC && k == 1 || bo.Op == token.ADD && isC && k == -1) && isLenOf(bo.X) {
+									okMinus = true
+								}
+							}
+							if isLenOf(e) && absent {
+								okPlain = true
+							}
 						}
-						for _, dc := range conds {
-							ex, isEx := dc.Cond.(*ssa.Extract)
-							if !isEx || ex.Index != 1 {
-								continue
-							}
-							lk, isLk := ex.Tuple.(*ssa.Lookup)
-							if !isLk || !lk.CommaOk || lk.X != rg.X {
-								continue
-							}
-							if k, isC := lk.Index.(*ssa.Const); !isC || k.Value == nil || k.Value.Kind() != constant.String || constant.StringVal(k.Value) != skipped[0] {
-								continue
-							}
-							if dc.Truth {
-								present = true
-							} else {
-								absent = true
-							}
-						}
-						if bo, isBo := e.(*ssa.BinOp); isBo && present {
-							k, isC := constInt(bo.Y)
-							if (bo.Op == token.SUB && isC && k == 1 || bo.Op == token.ADD && isC && k == -1) && isLenOf(bo.X) {
-								okMinus = true
-							}
-						}
-						if isLenOf(e) && absent {
-							okPlain = true
+						if okMinus && okPlain {
+							ok2, detail = true, ""
 						}
 					}
-					if okMinus && okPlain {
-						ok2, detail = true, ""
-					}
+				default:
+					detail = "the loop leaves out more than one key"
 				}
-			default:
-				detail = "the loop leaves out more than one key"
+				r.add("NUM-HEADERS", shortName(wkv), "loop", "the pair count written before the loop equals the number of pairs the loop emits", P.pos(instrPos(cntCall)), ok2, detail)
 			}
-			r.add("NUM-HEADERS", shortName(wkv), "loop", "the pair count written before the loop equals the number of pairs the loop emits", P.pos(instrPos(cntCall)), ok2, detail)
 		}
 	}
 	if n < 2 {
@@ -1607,4 +1640,29 @@ func boolTableTrue(P *Program, g *ssa.Global) (map[int64]bool, bool) {
 		}
 	}
 	return out, len(out) > 0
+}
+
+// sizeThreadingCluster: root plus the repository functions it (transitively)
+// calls that have the same shape — first parameter the running size, last
+// parameter the writer, results (size, error).
+func sizeThreadingCluster(root *ssa.Function) []*ssa.Function {
+	shape := func(f *ssa.Function) bool {
+		if f == nil || f.Blocks == nil || !inRepo(f) || len(f.Params) < 2 {
+			return false
+		}
+		res := f.Signature.Results()
+		return res.Len() == 2 && isInteger(res.At(0).Type()) && isErrorType(res.At(1).Type()) &&
+			isInteger(f.Params[0].Type()) && types.IsInterface(f.Params[len(f.Params)-1].Type())
+	}
+	out := []*ssa.Function{root}
+	seen := map[*ssa.Function]bool{root: true}
+	for i := 0; i < len(out); i++ {
+		for _, c := range callsIn(out[i]) {
+			if cal := c.Common().StaticCallee(); shape(cal) && !seen[cal] {
+				seen[cal] = true
+				out = append(out, cal)
+			}
+		}
+	}
+	return out
 }
